@@ -1801,17 +1801,21 @@ open Wz
 /-- what follows `--boundary` in the encoder's output: `--CRLF…` (closing delimiter) or `CRLF` +
 the header block of the next part (which does not start with LF) -/
 inductive AfterDelim : Bytes → Bool → Bytes → Prop
-  | closing (epi : Bytes) : AfterDelim (45 :: 45 :: 13 :: 10 :: epi) true epi
+  | closing (x : Bytes) : AfterDelim (45 :: 45 :: x) true
+      (x.drop ((x.takeWhile isHws).length + lbLen (x.dropWhile isHws)))
   | next (c : UInt8) (rest : Bytes) (hc : c ≠ 10) : AfterDelim (13 :: 10 :: c :: rest) false (c :: rest)
 
 theorem matchTail_afterDelim {tail : Bytes} {f : Bool} {rest : Bytes} (h : AfterDelim tail f rest) :
     ∃ m, matchTail tail = some (m, f) ∧ tail.drop m = rest := by
   cases h with
-  | closing epi =>
-    refine ⟨4, ?_, by simp⟩
-    rw [matchTail_final (by simp [List.isPrefixOf])]
-    have h13 : isHws 13 = false := by decide
-    simp [h13, lbLen_crlf]
+  | closing x =>
+    refine ⟨2 + (x.takeWhile isHws).length + lbLen (x.dropWhile isHws), ?_, ?_⟩
+    · rw [matchTail_final (by simp [List.isPrefixOf])]
+      simp [drop_takeWhile_length]
+    · have : 2 + (x.takeWhile isHws).length + lbLen (x.dropWhile isHws) =
+          ((x.takeWhile isHws).length + lbLen (x.dropWhile isHws)) + ([45, 45] : Bytes).length := by
+        simp; omega
+      rw [show (45 :: 45 :: x : Bytes) = [45, 45] ++ x from rfl, this, drop_add_append]
   | next c rest hc =>
     refine ⟨2, ?_, by simp⟩
     apply matchTail_false_iff.2
